@@ -621,3 +621,58 @@ REG.loop('Cluster.provision_ingest_resources', 2, inv=_pir_inv2, body=_pir_body2
          modifies_locals=['pair', 'machine', 'task', 'ret'],
          modifies=['self._resources.available', 'self._resources.ingest', 'ghost:pend_ingest.cnt', 'ghost:pend_ingest.n'],
          props=['C08', 'C01', 'C02'])
+
+
+# ================================================================================================ rely / guarantee (C01)
+from pyvc.spec import Carried   # noqa: E402
+from pyvc.state import ObjV as _ObjV   # noqa: E402
+
+
+def find_cluster(names):
+    seen = set()
+
+    def rec(v):
+        if isinstance(v, _ObjV):
+            if id(v) in seen:
+                return None
+            seen.add(id(v))
+            if v.cls == 'Cluster':
+                return v
+            for x in v.fields.values():
+                r = rec(x)
+                if r is not None:
+                    return r
+        return None
+    for v in names.values():
+        r = rec(v)
+        if r is not None:
+            return r
+    return None
+
+
+def _holds_machine(sv, p, names):
+    """what a live allocation process (another instance) knows while suspended: its task is in the running list exactly once,
+    its machine is in the occupied pool (workflow) or in the ingest pool and not pending (ingest)"""
+    cl = find_cluster(names)
+    if cl is None:
+        return None
+    k = CV(sv.of(cl))
+    t, m, ing = p['ft'], p['fm'], p['fingest'].t
+    pend = sv.pending('pend_ingest')[0]
+    return z3.And(k.run.count(t) == 1, z3.If(ing, z3.And(k.ing.count(m) > 0, z3.Select(pend, m.t) == 0), k.occ.count(m) > 0))
+
+
+def _other_instance(sv, p, names, qual, frm):
+    """the foreign instance is not the one being verified: a different task and a different machine.
+    (Different tasks: C04's at-most-once; different machines: for an instance that is just starting this is PROVED from the
+    disjoint pools, for two suspended instances it is the holder-uniqueness assumption stated in DESIGN 7.)"""
+    conds = []
+    if 'task' in names and hasattr(names['task'], 't'):
+        conds.append(names['task'].t != p['ft'].t)
+    if qual == 'Cluster.allocate_task_to_cluster' and frm is not None and frm >= 0 and 'machine' in names:
+        conds.append(names['machine'].t != p['fm'].t)
+    return z3.And(conds) if conds else None
+
+
+REG.carried.append(Carried('C01-a-suspended-allocation-keeps-its-task-running-and-its-machine-held', 'Cluster.allocate_task_to_cluster',
+                           {'ft': 'Task', 'fm': 'Machine', 'fingest': 'bool'}, _holds_machine, _other_instance, props=['C01', 'C02', 'C04']))
